@@ -276,6 +276,40 @@ def run(ctx, res):
         expect.append(('cands', list(rec2.probed), found))
         cases.append({'op': 'reqcand', 'require': r, 'lua_path': eff})
         res.count('require:' + status.split(' ')[0])
+    # project directories whose own NAME contains the load path's metacharacters (`?` is the placeholder, `;` the separator): they are
+    # part of the directory, not of the pattern; next to each one stands the directory the name would turn into if they were expanded
+    for dname, rq in (('game?', 'lib'), ('q?q/m?', 'lib'), ('a;b', 'lib'), ('?', 'x'), ('pro?ject', 'lib/inc')):
+        for lp in (None, '?.lua', 'lib/?.lua;?.lua'):
+            root2 = os.path.join(base, 'meta', dname)
+            main2 = os.path.join(root2, 'main.lua')
+            I.write(main2, b'local m = require("' + rq.encode() + b'")\n')
+            for nm in (rq + '.lua', 'lib/' + rq + '.lua'):
+                I.write(os.path.join(root2, nm), b'return {ok=1}\n')
+            leaf = rq.split('/')[-1]
+            for twin in {dname.replace('?', rq), dname.replace('?', leaf), dname.replace('?', ''), dname.split(';')[0], dname.replace(';', '/')}:
+                if twin and twin != dname:
+                    for nm in (rq + '.lua', 'lib/' + rq + '.lua', leaf + '.lua', 'main.lua'):
+                        I.write(os.path.join(base, 'meta', twin, nm), b'canary_twin=1\n')
+            out2 = os.path.join(base, 'out', 'm.p8')
+            if os.path.exists(out2):
+                os.remove(out2)
+            with I.Recorder() as rec, U.quiet(), contextlib.redirect_stdout(io.StringIO()), contextlib.redirect_stderr(io.StringIO()):
+                try:
+                    rc = tool.main(['-q', 'build', '--lua', main2] + (['--lua-path', lp] if lp else []) + [out2])
+                    status = 'ok' if rc == 0 else 'rc%s' % rc
+                except Exception as e:
+                    status = 'err ' + U.exc_kind(e)
+            res.evaluations += 1
+            res.count('require:metachar-directory')
+            res.nontrivial.add(('req-meta', dname, lp))
+            bad = [t for t in rec.touched() if not (I.under(t, root2) or I.under(t, os.path.dirname(out2)))]
+            key = 'C12:require-metadir:%s:%s' % (dname, lp)
+            if bad:
+                res.fail(key, 'require("%s") from a project directory named %r made picotool access %s, outside that directory' % (rq, dname, bad[0]),
+                         {'directory': dname, 'require': rq, 'lua_path': lp})
+            elif status == 'ok' and b'canary' in b''.join(gfile.from_file(out2).lua.to_lines()):
+                res.fail(key, 'require("%s") from a project directory named %r embedded a file from another directory' % (rq, dname),
+                         {'directory': dname, 'require': rq, 'lua_path': lp})
     if saved_home_req is None:
         os.environ.pop('HOME', None)
     else:
